@@ -9,7 +9,9 @@ enum Tri { F = 0, T = 1, U = 2 };
 struct Cond { char op; int a = -1, b = -1; int ref = -1; int mod = -1; };   // op: T F S U R M ! & |
 struct MRule { std::string ns, name; bool is_global = false, is_private = false; bool has_string = false; std::string token; bool log = false; std::string logmsg; std::vector<Cond> nodes; int root = 0; int source = 0; };
 struct MSource { std::string ns; std::vector<std::string> imports; std::vector<int> rules; };
-struct MSet { std::vector<MRule> rules; std::vector<MSource> sources; std::string buffer; std::set<std::string> present; };
+struct MSet { std::vector<MRule> rules; std::vector<MSource> sources; std::string buffer; std::set<std::string> present; std::string buffer2; std::set<std::string> present2; int padding = 0; };
+// the same rule set looking at the complementary buffer (every planted token absent and vice versa)
+static MSet alt_of(const MSet& s) { MSet a = s; a.buffer = s.buffer2; a.present = s.present2; a.buffer2 = s.buffer; a.present2 = s.present; return a; }
 
 struct ModFn { const char* module; const char* expr; Tri value; };
 static const ModFn MODFNS[] = {
@@ -122,6 +124,8 @@ static MSet gen_set(Rng& rng) {
   std::vector<int> per_src(nsrc, 0);
   for (int k = 0; k < nrules; k++) per_src[rng.below(nsrc)]++;
   int id = 0;
+  // a fifth of the sets start with 66 trivial rules, so that the interesting ones have indices above 64
+  if (rng.chance(1, 5)) { s.padding = 66; for (int k = 0; k < 66; k++) { MRule r; r.ns = s.sources[0].ns; r.name = "pad" + std::to_string(k); r.source = 0; Cond c; c.op = k % 3 == 0 ? 'T' : 'F'; r.nodes.push_back(c); r.root = 0; s.sources[0].rules.push_back((int) s.rules.size()); s.rules.push_back(r); } id = 66; }
   for (int si = 0; si < nsrc; si++) for (int k = 0; k < per_src[si]; k++) {
     MRule r; r.ns = s.sources[si].ns; r.name = "r" + std::to_string(id); r.source = si;
     int flavour = (int) rng.below(8);
@@ -131,7 +135,7 @@ static MSet gen_set(Rng& rng) {
     if (r.log) r.logmsg = "log-from-" + r.name;
     r.has_string = !r.log && rng.chance(1, 2);
     r.token = "tok_" + std::to_string(id) + "_";
-    std::vector<int> refable; for (size_t j = 0; j < s.rules.size(); j++) if (s.rules[j].ns == r.ns) refable.push_back((int) j);
+    std::vector<int> refable; for (size_t j = (size_t) s.padding; j < s.rules.size(); j++) if (s.rules[j].ns == r.ns) refable.push_back((int) j);
     std::vector<int> modfns; for (int m = 0; m < NMODFN; m++) for (auto& im : s.sources[si].imports) if (im == MODFNS[m].module) modfns.push_back(m);
     r.root = gen_cond(rng, s, r, 2, refable, modfns);
     { bool uses = false; for (auto& c : r.nodes) if (c.op == 'S') uses = true;     // yara rejects unreferenced strings
@@ -142,6 +146,9 @@ static MSet gen_set(Rng& rng) {
   s.buffer = "buffer:";
   for (auto& r : s.rules) if (r.has_string && rng.chance(1, 2)) { s.buffer += " " + r.token; s.present.insert(r.token); }
   s.buffer += " end";
+  s.buffer2 = "buffer:";
+  for (auto& r : s.rules) if (r.has_string && !s.present.count(r.token)) { s.buffer2 += " " + r.token; s.present2.insert(r.token); }
+  s.buffer2 += " end";
   return s;
 }
 
@@ -153,6 +160,7 @@ static J set_json(const MSet& s) {
   j.set("rules", rs);
   J ss = J::arr(); for (auto& x : s.sources) { J e = J::obj(); e.set("ns", x.ns); J im = J::arr(); for (auto& m : x.imports) im.push(m); e.set("imports", im); J rr = J::arr(); for (int i : x.rules) rr.push(i); e.set("rules", rr); ss.push(e); }
   j.set("sources", ss); j.set("buffer", s.buffer); J pr = J::arr(); for (auto& p : s.present) pr.push(p); j.set("present", pr);
+  j.set("buffer2", s.buffer2); J pr2 = J::arr(); for (auto& p : s.present2) pr2.push(p); j.set("present2", pr2); j.set("padding", s.padding);
   return j;
 }
 static MSet set_from(const J& j) {
@@ -161,6 +169,7 @@ static MSet set_from(const J& j) {
     for (size_t k = 0; k < e["nodes"].size(); k++) { const J& n = e["nodes"][k]; Cond c; c.op = n[0].str()[0]; c.a = (int) n[1].num(); c.b = (int) n[2].num(); c.ref = (int) n[3].num(); c.mod = (int) n[4].num(); r.nodes.push_back(c); } s.rules.push_back(r); }
   for (size_t i = 0; i < j["sources"].size(); i++) { const J& e = j["sources"][i]; MSource x; x.ns = e["ns"].str(); for (size_t k = 0; k < e["imports"].size(); k++) x.imports.push_back(e["imports"][k].str()); for (size_t k = 0; k < e["rules"].size(); k++) x.rules.push_back((int) e["rules"][k].num()); s.sources.push_back(x); }
   s.buffer = j["buffer"].str(); for (size_t i = 0; i < j["present"].size(); i++) s.present.insert(j["present"][i].str());
+  s.buffer2 = j["buffer2"].str(); for (size_t i = 0; i < j["present2"].size(); i++) s.present2.insert(j["present2"][i].str()); s.padding = (int) j["padding"].num();
   return s;
 }
 
@@ -181,11 +190,12 @@ static std::string flavour_of(const MSet& s, const std::string& line) {
 
 struct Check { std::string sig, klass, detail; };
 // one scan under (flags, k, reply); returns "" sig if the protocol held
-static Check run_one(const MSet& s, YR_RULES* rules, int flags, int k, int reply, const Expect& full, bool scanner_api, int64_t* msgs = nullptr) {
+static Check run_one(const MSet& s, YR_RULES* rules, int flags, int k, int reply, const Expect& full, bool scanner_api, int64_t* msgs = nullptr, YR_SCANNER* reuse = nullptr) {
   Check c;
   Recorder rec; rec.with_module_tree = false; rec.with_match_data = false; rec.reply_at = k; rec.reply_code = reply;
   int rc;
-  if (scanner_api) { YR_SCANNER* sc = NULL; yr_scanner_create(rules, &sc); yr_scanner_set_flags(sc, flags); yr_scanner_set_callback(sc, recorder_callback, &rec); rc = yr_scanner_scan_mem(sc, (const uint8_t*) s.buffer.data(), s.buffer.size()); yr_scanner_destroy(sc); }
+  if (reuse) { yr_scanner_set_flags(reuse, flags); yr_scanner_set_callback(reuse, recorder_callback, &rec); rc = yr_scanner_scan_mem(reuse, (const uint8_t*) s.buffer.data(), s.buffer.size()); }
+  else if (scanner_api) { YR_SCANNER* sc = NULL; yr_scanner_create(rules, &sc); yr_scanner_set_flags(sc, flags); yr_scanner_set_callback(sc, recorder_callback, &rec); rc = yr_scanner_scan_mem(sc, (const uint8_t*) s.buffer.data(), s.buffer.size()); yr_scanner_destroy(sc); }
   else rc = yr_rules_scan_mem(rules, (const uint8_t*) s.buffer.data(), s.buffer.size(), flags, recorder_callback, &rec, 0);
   if (msgs) *msgs = rec.nmsgs;
   std::vector<std::string> got = normalise(rec.text);
@@ -222,10 +232,15 @@ static std::vector<std::pair<Check, J>> check_set(const MSet& s, Stats* st, bool
   std::vector<std::pair<Check, J>> out; std::set<std::string> seen;
   std::string err; YR_RULES* rules = compile_set(s, &err);
   if (!rules) { if (st) { st->c["generated_set_did_not_compile"]++; if (st->c["generated_set_did_not_compile"] <= 2) emit_note("c11: generated set does not compile: " + err.substr(0, 300)); } return out; }
+  YR_SCANNER* reuse = NULL; if (scanner_api_mix) yr_scanner_create(rules, &reuse);
+  MSet alt = alt_of(s);
   for (int fi = 0; fi < 4; fi++) {
     int flags = FLAGSETS[fi];
     Expect full = model_trace(s, flags);
+    Expect full_alt = model_trace(alt, flags);
     for (int k = -1; k < (int) full.lines.size(); k++) {
+      // padded sets: every k among the last 14 messages, a sample among the padding
+      if (s.padding && k >= 0 && k + 14 < (int) full.lines.size() && (k % 11) != fi) continue;
       for (int reply : {CALLBACK_ABORT, CALLBACK_ERROR}) {
         if (k == -1 && reply == CALLBACK_ERROR) continue;
         if (k >= 0) {
@@ -235,14 +250,22 @@ static std::vector<std::pair<Check, J>> check_set(const MSet& s, Stats* st, bool
           if (!(rule_msg || (mod_msg && reply == CALLBACK_ERROR))) continue;     // unspecified positions: inject nothing
         }
         bool api = scanner_api_mix && rng ? rng->chance(1, 2) : false;
+        bool with_reuse = reuse && rng && rng->chance(1, 3);
         int64_t msgs = 0;
-        Check c = run_one(s, rules, flags, k, reply, full, api, &msgs);
+        if (with_reuse) {   // the long-lived scanner first looks at the complementary buffer, then at this one
+          Check c0 = run_one(alt, rules, flags, -1, CALLBACK_ABORT, full_alt, true, nullptr, reuse);
+          if (st) { st->runs++; st->c["reused_scanner_scans"]++; }
+          if (!c0.sig.empty() && seen.insert("reused|" + c0.sig).second) { c0.sig = "reused|" + c0.sig; J rp = J::obj(); rp.set("engine", "sim_protocol"); rp.set("set", set_json(alt)); rp.set("flags", flags); rp.set("k", -1); rp.set("reply", CALLBACK_ABORT); rp.set("scanner_api", true); rp.set("reused_after_alt", true); out.push_back({c0, rp}); }
+        }
+        Check c = run_one(s, rules, flags, k, reply, full, api, &msgs, with_reuse ? reuse : nullptr);
+        if (with_reuse && !c.sig.empty()) c.sig = "reused|" + c.sig;
         if (st) { st->runs++; if (k >= 0) st->c[reply == CALLBACK_ABORT ? "faults_fired.callback_abort" : "faults_fired.callback_error"]++; else st->c["fault_free_scans"]++;
           Hash64 h; h.add(s.buffer); for (auto& src : s.sources) h.add(source_text(s, src)); h.addu(flags); h.addu(k); h.addu(reply); st->hash(h.h); }
-        if (!c.sig.empty() && seen.insert(c.sig).second) { J rp = J::obj(); rp.set("engine", "sim_protocol"); rp.set("set", set_json(s)); rp.set("flags", flags); rp.set("k", k); rp.set("reply", reply); rp.set("scanner_api", api); out.push_back({c, rp}); }
+        if (!c.sig.empty() && seen.insert(c.sig).second) { J rp = J::obj(); rp.set("engine", "sim_protocol"); rp.set("set", set_json(s)); rp.set("flags", flags); rp.set("k", k); rp.set("reply", reply); rp.set("scanner_api", api); rp.set("reused_after_alt", with_reuse); out.push_back({c, rp}); }
       }
     }
   }
+  if (reuse) yr_scanner_destroy(reuse);
   yr_rules_destroy(rules);
   return out;
 }
@@ -281,7 +304,9 @@ int main(int argc, char** argv) {
       MSet s = set_from(c["set"]);
       std::string err; YR_RULES* rules = compile_set(s, &err); if (!rules) { fprintf(stderr, "replay: set does not compile: %s\n", err.c_str()); return 2; }
       int flags = (int) c["flags"].num(); Expect full = model_trace(s, flags);
-      Check ck = run_one(s, rules, flags, (int) c["k"].num(), (int) c["reply"].num(), full, c["scanner_api"].truthy());
+      Check ck;
+      if (c["reused_after_alt"].truthy()) { YR_SCANNER* sc = NULL; yr_scanner_create(rules, &sc); MSet alt = alt_of(s); Expect fa = model_trace(alt, flags); run_one(alt, rules, flags, -1, CALLBACK_ABORT, fa, true, nullptr, sc); ck = run_one(s, rules, flags, (int) c["k"].num(), (int) c["reply"].num(), full, true, nullptr, sc); if (!ck.sig.empty()) ck.sig = "reused|" + ck.sig; yr_scanner_destroy(sc); }
+      else ck = run_one(s, rules, flags, (int) c["k"].num(), (int) c["reply"].num(), full, c["scanner_api"].truthy());
       if (!ck.sig.empty()) emit_violation("C11", ck.klass, ck.sig, ck.detail, c);
       if (args.has("verbose")) { for (auto& src : s.sources) printf("--- ns %s\n%s", src.ns.c_str(), source_text(s, src).c_str()); for (auto& l : full.lines) printf("  model: %s\n", l.c_str()); }
       yr_rules_destroy(rules);
